@@ -222,7 +222,7 @@ def chain_cases(rng, n):
         cut = rng.randint(1, nst)
         pols = [(1, names[:cut])] + ([(2, names[cut:] + ([names[0]] if rng.random() < 0.3 else []))] if cut < nst else [])
         pn = [p[0] for p in pols]
-        ops = setup(sets, stmts, pols, [(1, rng.choice([1, 2]), pn), (0, rng.choice([1, 2]), pn)])
+        ops = setup(sets, stmts, pols, [(1, rng.choice([1, 2, 1, 2, 0]), pn), (0, rng.choice([1, 2, 1, 2, 0]), pn)])   # default Pass only through the crate API
         ops += [gen_route(rng) for _ in range(rng.randint(4, 8))]
         out.append(mk('chain', ops, profile=rng.choice(['debug', 'debug', 'release'])))
     # hand-written accumulation chains
@@ -335,7 +335,7 @@ def crud_cases(rng, n, length):
                 ops.append([6, rng.choice(names), int(rng.random() < 0.5), int(rng.random() < 0.5),
                             [rng.choice(names + [3]) for _ in range(rng.choice([0, 1, 2]))]])
             elif x < 0.87:
-                ops.append([7, int(rng.random() < 0.3), rng.randrange(2), rng.choice([1, 2]), [rng.choice(names) for _ in range(rng.choice([0, 1, 1, 2]))]])
+                ops.append([7, int(rng.random() < 0.3), rng.randrange(2), rng.choice([1, 2, 1, 2, 0]), [rng.choice(names) for _ in range(rng.choice([0, 1, 1, 2]))]])
             elif x < 0.91:
                 ops.append([8, rng.randrange(2), [rng.choice(names)], int(rng.random() < 0.3)])
             else:
